@@ -104,6 +104,11 @@ var c05Wheres = []c05Where{
 		return ok && ref.Like(v, "%b_c%") && numGT(getPath(r, "a"), 0)
 	}},
 	{"cpuLoad > 1", func(r Row) bool { return numGT(getPath(r, "cpuLoad"), 1) }},
+	// AND binds tighter than OR (no parentheses)
+	// (over columns that are never NULL in an ordering comparison: NULL there is C06's known finding)
+	{"cpuLoad > 2 OR b < 2 AND s = 'x'", func(r Row) bool {
+		return numGT(getPath(r, "cpuLoad"), 2) || numLT(getPath(r, "b"), 2) && getPath(r, "s") == "x"
+	}},
 	// text comparisons with the row's text below, at and above the bound
 	{"s >= 'abc'", func(r Row) bool { v, ok := getPath(r, "s").(string); return ok && v >= "abc" }},
 	{"s <= 'abc' AND b > 0", func(r Row) bool { v, ok := getPath(r, "s").(string); return ok && v <= "abc" && numGT(getPath(r, "b"), 0) }},
@@ -136,7 +141,7 @@ func c05Rows() []Row {
 	}
 	// an empty and a nil row in the middle of the stream: every later row must still be processed
 	mid := len(rows) / 2
-	rows = append(rows[:mid], append([]Row{{}, nil, {"a": 5, "b": 1, "s": "x"}}, rows[mid:]...)...)
+	rows = append(rows[:mid], append([]Row{{}, nil, {"a": 5, "b": 1, "s": "x", "cpuLoad": 1}}, rows[mid:]...)...)
 	return rows
 }
 
